@@ -158,3 +158,8 @@ def validate_trace(path, tag, deviations=(), timeout=1500, heap="3g"):
     maxline, n, sd, pyok, pyn, f38, f39 = (int(x) for x in m.groups())
     return {"lines": n, "accepted": maxline > n, "first_rejected": None if maxline > n else maxline, "status_differs": sd, "pyok": pyok, "pynative": pyn, "F38": f38, "F39": f39, "wall": r.wall,
             "detail": r.printed[-1] if r.printed else None}
+
+
+def validate_trace_slot(sem, path, tag, deviations=(), timeout=1500, heap="3g"):
+    """validate_trace under the caller's limit on concurrent TLC processes"""
+    with sem: return validate_trace(path, tag, deviations=deviations, timeout=timeout, heap=heap)
